@@ -96,6 +96,9 @@ type ProcRunner struct {
 	// ForwardTCP: the host reaches the plugin's unix sockets only through TCP forwarders this runner
 	// opens (a runner for a sandbox or another machine): PluginToHost turns ("unix", path) into
 	// ("tcp", 127.0.0.1:port) -- the network KIND changes, not only the address.
+	// StdoutErr: Stdout() hands out a reader that fails with this error (the process's real stdout is
+	// drained by the runner itself so the plugin does not block)
+	StdoutErr  error
 	ForwardTCP bool
 	fwdMu      sync.Mutex
 	fwd        map[string]net.Listener
@@ -125,7 +128,14 @@ func NewProcRunner(spec *exec.Cmd, path string, args ...string) (*ProcRunner, er
 	return &ProcRunner{Cmd: cmd, stdout: so, stderr: se}, nil
 }
 
-func (r *ProcRunner) Start(ctx context.Context) error { r.Starts.Add(1); return r.Cmd.Start() }
+func (r *ProcRunner) Start(ctx context.Context) error {
+	r.Starts.Add(1)
+	err := r.Cmd.Start()
+	if err == nil && r.StdoutErr != nil {
+		go io.Copy(io.Discard, r.stdout)
+	}
+	return err
+}
 func (r *ProcRunner) Wait(ctx context.Context) error {
 	r.waitOnce.Do(func() {
 		r.waitErr = r.Cmd.Wait()
@@ -154,9 +164,19 @@ func (r *ProcRunner) Kill(ctx context.Context) error {
 	}
 	return nil
 }
-func (r *ProcRunner) Stdout() io.ReadCloser { return r.stdout }
-func (r *ProcRunner) Stderr() io.ReadCloser { return r.stderr }
-func (r *ProcRunner) Name() string          { return r.Cmd.Path }
+func (r *ProcRunner) Stdout() io.ReadCloser {
+	if r.StdoutErr != nil {
+		// a log stream that broke: every read fails with an error that is not EOF
+		return io.NopCloser(errReader{r.StdoutErr})
+	}
+	return r.stdout
+}
+
+type errReader struct{ err error }
+
+func (e errReader) Read([]byte) (int, error) { return 0, e.err }
+func (r *ProcRunner) Stderr() io.ReadCloser  { return r.stderr }
+func (r *ProcRunner) Name() string           { return r.Cmd.Path }
 func (r *ProcRunner) ID() string {
 	if r.Cmd.Process == nil {
 		return ""
